@@ -449,15 +449,17 @@ CallCancel(a, e) ==
 (* part of its trace.  enter_on_poll(name): one local span per poll.                               *)
 (* The scripted inner future reports `pollend` right before it returns: from then on the adapter's *)
 (* own epilogue (scope closed, span finished) may already be visible to the collector.             *)
+\* which property a span bound to an adapter belongs to (the span of in_span, the per-poll spans of enter_on_poll)
 AdProp(a, n) == IF \E f \in DOMAIN a.ad : a.ad[f].h = n
                 THEN IF a.ad[CHOOSE f \in DOMAIN a.ad : a.ad[f].h = n].kind = "fut" THEN "C13" ELSE "C14"
+                ELSE IF \E f \in DOMAIN a.ad : n \in a.ad[f].gs THEN "C13"
                 ELSE None
-CallFNew(a, e) == [a EXCEPT !.ad = Put(@, e.f, [h |-> F(e, "h"), kind |-> e.kind, done |-> FALSE, g |-> None, open |-> FALSE, finby |-> None])]
+CallFNew(a, e) == [a EXCEPT !.ad = Put(@, e.f, [h |-> F(e, "h"), kind |-> e.kind, done |-> FALSE, g |-> None, open |-> FALSE, finby |-> None, gs |-> {}])]
 CallFPoll(a0, e) ==
   LET d == a0.ad[e.f]
       a == [a0 EXCEPT !.polled = Put(@, e.t, d.kind)] IN
   IF d.kind = "eop"
-  THEN [CallLEnter(a, [t |-> e.t, l |-> e.g]) EXCEPT !.ad[e.f].g = e.g, !.ad[e.f].open = TRUE]
+  THEN [CallLEnter(a, [t |-> e.t, l |-> e.g]) EXCEPT !.ad[e.f].g = e.g, !.ad[e.f].open = TRUE, !.ad[e.f].gs = @ \cup {e.g}]
   ELSE IF d.done THEN a
   ELSE [CallSetLp(a, [t |-> e.t, g |-> e.g, h |-> d.h]) EXCEPT !.ad[e.f].g = e.g, !.ad[e.f].open = TRUE]
 \* a span the scripted inner future holds is finished when the inner completes or is dropped, which is
